@@ -1292,7 +1292,7 @@ class LegCharge:
         sort : sorts by charges, thus enforcing complete blocking in combination with bunch.
 
         """
-        if self.bunched:  # nothing to do
+        if self.bunched or self.block_number == 0:  # nothing to do
             return np.arange(self.block_number + 1, dtype=np.intp), self
         cp = self.copy()
         idx = _find_row_differences(self.charges)
